@@ -27,13 +27,43 @@ def verus_cmd(path, extra=()):
             '--multiple-errors', '8', '--no-report-long-running'] + list(extra)
 
 
+MISSING = re.compile(r"cannot find (?:function|value|associated function|type|struct, variant or union type|constant) `([A-Za-z_0-9]+)`|"
+                     r"no (?:function or associated item|associated function or constant|method|associated item) named `([A-Za-z_0-9]+)` found for (?:struct|type|reference|enum) `&*(?:mut )?([A-Za-z_0-9:<>]+)")
+
+
 def run_unit(unit_name, canary=None, extra=(), suffix='', timeout=int(os.environ.get('VERIF_VERUS_TIMEOUT', '600'))):
+    """run_unit_once, retried with helper items the extracted text refers to (a refactoring that
+    introduces a helper fn / const in the same source file must not end in a compile error)."""
+    added = []
+    for _ in range(4):
+        res = run_unit_once(unit_name, canary, extra, suffix, timeout, added)
+        if res['status'] != 'undecided' or 'raw_errors' not in res:
+            break
+        new = []
+        for e in res.get('raw_errors', []):
+            for m in MISSING.finditer(e or ''):
+                name = m.group(1) or m.group(2)
+                owner = m.group(3)
+                cand = bu.locate_helper(unit_name, name, owner)
+                if cand and cand not in added and cand not in new:
+                    new.append(cand)
+        if not new:
+            break
+        added += new
+    res['auto_added'] = added
+    if added and res['status'] == 'failed' and any(a['kind'] == 'fn' for a in added):
+        res['status'] = 'undecided'
+        res['reason'] = 'the change introduces helper function(s) %s that have no contract; a caller\'s failed obligation cannot be told from a missing callee contract' % ', '.join(a['name'] for a in added if a['kind'] == 'fn')
+    return res
+
+
+def run_unit_once(unit_name, canary=None, extra=(), suffix='', timeout=600, added=()):
     """Build + verify one unit.  Returns dict with status in proved|failed|undecided."""
     t0 = time.time()
     res = {'unit': unit_name, 'canary': canary, 'status': 'undecided', 'failures': [], 'reason': '',
            'functions': {}, 'breakdown': [], 'verified': 0, 'errors': 0}
     try:
-        built = bu.build_unit(os.path.join(VERIF, 'units', unit_name + '.json'), canary=canary)
+        built = bu.build_unit(os.path.join(VERIF, 'units', unit_name + '.json'), canary=canary, added=added)
     except bu.Undecided as e:
         res['reason'] = 'extraction: %s' % e
         res['wall_s'] = time.time() - t0
